@@ -403,10 +403,10 @@ namespace ratio
         {
             const auto var = static_cast<const ratio::var_item *>(&itm)->ev;
             const auto val = slv.get_ov_theory().value(var);
-            if (val.size() > 1)
+            if (val.size() > 1 && slv.get_sat_core().value(slv.get_ov_theory().allows(var, va->val)) == Undefined)
                 record({slv.get_ov_theory().allows(var, va->val), !reason});
-            else if (*val.begin() != &va->val)
-            { // we have a conflict..
+            else if (!val.count(&va->val))
+            { // we have a conflict (the frozen value is not allowed anymore)..
                 cnfl.push_back(slv.get_ov_theory().allows(var, va->val));
                 cnfl.push_back(!reason);
                 return false;
